@@ -11,7 +11,7 @@
 //
 // The store itself holds no process-global state (the index manager, TxCache and block cache are
 // per instance), so several stores may live in one process; the transaction factory hooks of
-// core/types/functions and config.DefaultParams are installed once by init().
+// core/types/functions and config.DefaultParams are installed once by Setup().
 package storekit
 
 import (
@@ -376,7 +376,6 @@ func Rules() []string {
 // Canonical applies the documented normalisations to a raw dump.
 func Canonical(rows []Row, rules CanonRules) Canon {
 	var out []string
-	perBucket := map[string]int{}
 	for _, r := range rows {
 		if r.Key == "<bucket>" {
 			continue
@@ -420,7 +419,6 @@ func Canonical(rows []Row, rules CanonRules) Canon {
 			sort.Ints(idx)
 			v = fmt.Sprint(idx)
 		}
-		perBucket[r.Path]++
 		out = append(out, r.Path+" "+r.Key+"="+v)
 	}
 	sort.Strings(out)
